@@ -46,6 +46,9 @@ pub enum Edit {
     AddBaseKey(u8, u8),
     RemoveKey(u8),
     DeleteFile,
+    /// the file is moved away, the context is told (update-engine, same configuration), and the file is put back
+    /// untouched - same content, same modification time
+    AwayAndBack,
 }
 
 #[derive(Clone, Debug, Serialize, Deserialize, Hash)]
@@ -203,6 +206,20 @@ pub fn run_case(c: &Case, st: &mut Stats) -> Result<(), Failure> {
             }
             let _ = std::fs::remove_file(&acp);
             doc = None;
+        }
+        Edit::AwayAndBack => {
+            if let (Some(d), Ok(bytes), Ok(m)) = (&doc, std::fs::read(&acp), std::fs::metadata(&acp).and_then(|m| m.modified())) {
+                touched.extend(d.keys().cloned());
+                std::fs::remove_file(&acp).expect("move away");
+                if a.ongoing() {
+                    a.finish().map_err(pf)?;
+                }
+                let cur = a.opts;
+                a.update(cur, &sb).map_err(pf)?;
+                std::fs::write(&acp, bytes).expect("put back");
+                std::fs::File::options().write(true).open(&acp).expect("open").set_modified(m).expect("mtime");
+                st.label("file-away-update-and-back-untouched");
+            }
         }
     }
     let _ = &doc;
@@ -437,6 +454,7 @@ pub fn strategy() -> impl Strategy<Value = Case> {
         3 => (any::<u8>(), any::<u8>()).prop_map(|(a, b)| Edit::AddBaseKey(a, b)),
         1 => any::<u8>().prop_map(Edit::RemoveKey),
         2 => Just(Edit::DeleteFile),
+        2 => Just(Edit::AwayAndBack),
     ];
     let mid = prop_oneof![
         2 => Just(None),
@@ -466,6 +484,7 @@ pub fn run(run: &Run) {
     run.require_label("edit-touches-word-typed-before-and-after", 50);
     run.require_label("layout-changes", 100);
     run.require_label("file-deleted", 20);
+    run.require_label("file-away-update-and-back-untouched", 20);
     run.require_label("store-exists-before-creation", 100);
     run.require_label("two-updates", 100);
 }
